@@ -270,3 +270,23 @@ MUTANTS += [
     dict(id="c19_whitelist_getter_returns_inner_dicts", props=["C19"], edits=[
         (UV, "                t: types.MappingProxyType(dict(linkset.items()))\n", "                t: linkset\n")]),
 ]
+
+MUTANTS += [
+    # ---------------- C03 -------------------------------------------------
+    dict(id="c03_revert_fix_d1", props=["C03", "C01"], edits=[
+        (TE, "        self._replace_end(0, new)\n", "        v2 = self.v2\n        self.unlink_from(self.v1)\n        self._vertices = []\n        self.add_vertex(new)\n        self._vertices.append(v2)\n"),
+        (TE, "        self._replace_end(1, new)\n", "        v1 = self.v1\n        self.unlink_from(self.v2)\n        self._vertices = [v1]\n        self.add_vertex(new)\n")]),
+    dict(id="c03_links_prepended", props=["C03"], edits=[
+        (VX, "            self._links.append(link)\n", "            self._links.insert(0, link)\n")]),
+    dict(id="c03_dontdup_ignores_reverse_direction", props=["C03"], edits=[
+        (EX, "            if lnk.other(v1) is v2:\n", "            if lnk.other(v1) is v2 and lnk.v1 is v1:\n")]),
+    dict(id="c03_unlink_directed_only_forward", props=["C03"], edits=[
+        (EX, "    links = helpers.find_links(v1, v2, direction_sensitive=False)\n", "    links = helpers.find_links(v1, v2, direction_sensitive=True, unknown_handling=helpers.LNK_UNKNOWN_NEIGHBOR)\n")]),
+    dict(id="c03_unlink_returns_all_links_of_v1", props=["C03"], edits=[
+        (EX, "    if not destroy:\n        out = set()\n", "    if not destroy:\n        out = set(l for l in v1.links if l.other(v1) is not None and len(v1.links) > 2)\n")]),
+    dict(id="c03_typecheck_after_mutation", props=["C03"], edits=[
+        (TE, "        if (v2 is not None) and (not issubclass(type(v2), vertex.Vertex)):\n            raise TypeError(f\"v2 is not a Vertex object!  got {v2}\")\n",
+             "        if (v2 is not None) and (not issubclass(type(v2), vertex.Vertex)):\n            if v1 is not None:\n                v1._links.append(self)\n            raise TypeError(f\"v2 is not a Vertex object!  got {v2}\")\n")]),
+    dict(id="c03_replace_end_reattaches_at_end", props=["C03"], edits=[
+        (TE, "        if new is not None:\n            new.add_to_link(self)\n", "        if new is not None:\n            if new is old:\n                new.remove_from_link(self)\n                self._vertices.insert(idx, new)\n            new.add_to_link(self)\n")]),
+]
